@@ -134,7 +134,7 @@ def load_config_ob(focus='overrides'):
         if dl0:
             s0['delimiter'] = 'tab'
         if dl1:
-            s1['delimiter'] = ';'
+            s1['delimiter'] = 'regex:[A-Z]{3}\\S+'          # a delimiter given as a pattern: handed on exactly as written
         if hh0:
             s0['has_header'] = False
         if hh1:
@@ -160,7 +160,7 @@ def load_config_ob(focus='overrides'):
             cl.load_settings, cl.os = saved
         a, b = cfg['data_sources'][0]['_format_spec'], cfg['data_sources'][1]['_format_spec']
         ok = a is not b
-        ok = ok and a.delimiter == ('tab' if dl0 else None) and b.delimiter == (';' if dl1 else None)
+        ok = ok and a.delimiter == ('tab' if dl0 else None) and b.delimiter == ('regex:[A-Z]{3}\\S+' if dl1 else None)
         ok = ok and a.has_header == (not hh0) and b.has_header == (not hh1) and a.negate_amount == bool(ng0) and b.negate_amount == bool(ng1)
         ok = ok and cfg['rule_mode'] == ('most_specific' if int(mode) == 2 else 'first_match')
         ok = ok and (any('rule_mode' in w.get('message', '') for w in cfg['_warnings'])) == (int(mode) == 3)
